@@ -71,6 +71,7 @@ class Ctx:
         self.gnext = {}        # name -> expr
         self.requires, self.invs, self.ensures, self.covers, self.combs, self.lemmas = [], [], [], [], [], []
         self.cands = []
+        self.degraded = []
         self.comb_at = {}
         self.inv_covers = []
         self.assumptions = []
@@ -133,6 +134,20 @@ class Ctx:
 
     def inv(self, name, expr):
         self.invs.append((name, B(expr)))
+
+    def try_inv(self, name, fn):
+        """An invariant conjunct about an *incidental* internal register (a temporary the property does not care about).
+        `fn()` builds the formula; if the register it names no longer exists (BindingError / AssertionError), the conjunct
+        is skipped and the contract is marked degraded: the remaining obligations are still generated (dropping a
+        hypothesis is sound), but a refuted obligation is then only reported as a VIOLATION when a witness from reset
+        replays on the simulator and violates an ensures clause; otherwise the verdict is undecided."""
+        try:
+            e = fn()
+        except (BindingError, AssertionError, KeyError, IndexError) as ex:
+            self.degraded.append(f"{name}: {ex}"[:200])
+            return False
+        self.invs.append((name, B(e)))
+        return True
 
     def candidate(self, name, expr):
         self.cands.append((name, B(expr)))
